@@ -40,6 +40,13 @@ def _closure_infallible(ctors, j, memo):
     return ok
 
 
+def _deps(ctors, j):
+    out = {j}
+    for x in ctors[j]["ins"]:
+        out |= _deps(ctors, x[0])
+    return out
+
+
 def localise(rng, ebp, ctors, handlers, mws, ehs, observers):
     """move some constructors into the nested blueprint that holds all their users, so that the scope of the
     *fallible component* (not of the route) decides which by-type error handler is visible"""
@@ -147,10 +154,26 @@ def draw(rng):
     # ---- error handlers ------------------------------------------------------------------------
     ehs = []
 
+    obs_types = {j for o in observers for j, _ in o["ins"]}
+
     def new_eh(target):
         k = len(ehs)
-        ins = comp_ins(1, safe) if rng.random() < 0.35 else []
-        ins = [[j, "ref"] for j, _ in ins]
+        r = rng.random()
+        if r < 0.35:
+            ins = [[j, "ref"] for j, _ in comp_ins(1, safe)]
+        elif r < 0.42:
+            # an input whose construction can fail as well (not the failing component's own output, nor
+            # anything built from it: pavexc cannot generate code for that)
+            bad = set()
+            if target[0] == "c":
+                bad = {j for j in range(n) if target[1] in _deps(ctors, j)}
+            ins = [[j, "ref"] for j, _ in comp_ins(1, [j for j in range(n) if j not in safe and j not in bad])]
+        else:
+            ins = []
+        for x in ins:
+            # by value, unless an observer borrows the same type (known C01 defect: observers run after the handler)
+            if x[0] not in obs_types and ctors[x[0]]["life"] != "singleton" and ctors[x[0]]["cloning"] and rng.random() < 0.5:
+                x[1] = "val"
         ehs.append({"k": k, "target": target, "ins": ins, "status": (590 + k % 9) if target == ["any"] else 520 + k})
         return k
 
@@ -160,7 +183,7 @@ def draw(rng):
     for f in fallibles:
         r = rng.random()
         if r < 0.2:
-            direct[tuple(f)] = new_eh(f)
+            direct[tuple(f)] = new_eh(f if rng.random() < 0.8 else ["any"])
         elif r < 0.65:
             typed.append(new_eh(f))
         if r >= 0.2 and rng.random() < 0.15:
